@@ -34,12 +34,12 @@ type Opts struct {
 }
 
 type Result struct {
-	Code     int
-	Stdout   string
-	Err      string // the rendered error klog's main would print
-	Panicked bool
-	PanicVal any
-	Stack    string
+	Code      int
+	Stdout    string
+	Err       string // the rendered error klog's main would print
+	Panicked  bool
+	PanicVal  any
+	Stack     string
 	ConfigErr string
 }
 
